@@ -14,7 +14,12 @@ Legs:
                  attribute compared with the expanded name the GENERATOR intended (computed here from the
                  stylesheet tree by XSLT 1.0 7.1.1-7.1.3, no Coq model involved); excluded namespaces and
                  namespace-alias (stylesheet side must not appear) checked on the declarations seen.
-                 Additional oracle-only streams: namespace-alias, attribute sets, and xsl:copy / xsl:copy-of of
+                 Attribute sets (xsl:use-attribute-sets on literal result elements and xsl:element, nested
+                 sets) are modelled: their xsl:attribute instructions run after the declarations and before the
+                 literal attributes (ops LO ... LA); a dedicated stream generates ORDER-dependent shapes (a prefix
+                 declared or inherited but not yet used on the pending start tag when a set's xsl:attribute with
+                 the same prefix and another namespace arrives).
+                 Additional oracle-only streams: namespace-alias, xsl:copy with use-attribute-sets, and xsl:copy / xsl:copy-of of
                  nodes of generated SOURCE documents that re-bind prefixes and the default namespace at several
                  depths (expected expanded names read off the source by the same expat reader).
 """
@@ -831,9 +836,20 @@ def gen_copy_case(r, cid):
             a = '<xsl:attribute name="c" namespace="%s">u9</xsl:attribute>' % u
         else:
             a = '<xsl:attribute name="%s:c" xmlns:%s="%s">u9</xsl:attribute>' % ((r.choice(["p", "q", "r"]),) * 2 + (u,))
-        inner = '<xsl:for-each select="%s"><xsl:copy>%s</xsl:copy></xsl:for-each>' % (sel, a)
         e = want_of(target, deep=False)
-        e["attrs"] = {(u, "c"): "u9"}
+        if r.random() < 0.5:
+            # xsl:copy with use-attribute-sets: the set runs first (the copied element's namespace nodes are
+            # pending declarations then), then the source attributes are copied, then the xsl:attribute
+            u2, pz = r.choice(SRC_URIS), r.choice(["p", "q"])
+            top += '<xsl:attribute-set name="cs"><xsl:attribute name="%s:z" namespace="%s">u8</xsl:attribute></xsl:attribute-set>' % (pz, u2)
+            inner = '<xsl:for-each select="%s"><xsl:copy use-attribute-sets="cs"><xsl:copy-of select="@*"/>%s</xsl:copy></xsl:for-each>' % (sel, a)
+            e["attrs"] = dict(target["attrs"])
+            e["attrs"][(u2, "z")] = "u8"
+            e["attrs"][(u, "c")] = "u9"
+            mode = "shallow+set"
+        else:
+            inner = '<xsl:for-each select="%s"><xsl:copy>%s</xsl:copy></xsl:for-each>' % (sel, a)
+            e["attrs"] = {(u, "c"): "u9"}
         wrap["kids"] = [e]
     else:
         inner = '<xsl:copy-of select="%s/@*"/>' % sel
